@@ -424,7 +424,7 @@ namespace avel {
 
         [[nodiscard]]
         AVEL_FINL Vector operator-() const {
-            return Vector{0.0f} - *this;
+            return Vector{_mm256_xor_ps(content, _mm256_set1_ps(-0.0f))};
         }
 
         //=================================================
